@@ -17,6 +17,11 @@ open MainM CLI
     was written against -/
 theorem main_skeleton_tie : Const.MAIN_SKELETON = MainM.skeleton := rfl
 
+/-- the command-line definition of main.rs (clap), re-extracted from the source on every run, is the
+    one the model's `Opts` was written against: the same option names fill the same fields, the same
+    ones are switches, nothing defaults, overrides or conflicts, the command parses strictly -/
+theorem main_clap_tie : Const.MAIN_CLAP_SKELETON = MainM.clapSkeleton := rfl
+
 theorem parseRooms_codes {o : Opts} {e : Env} {c : Nat} (h : parseRooms o e = .error c) :
     c = EX_USAGE ∨ c = EX_DATAERR ∨ c = EX_NOINPUT := by
   unfold parseRooms at h
